@@ -243,6 +243,11 @@ def run(run, model):
     run.do(gates.c01_gate, model, "C08.after-pre-gate")
     from . import twins
     run.do(twins.helper_dispatch, model, "C08.capture-dispatch", "C08.capture-sync-reject")
+    # error factories see OLD: the error of a violated postcondition is built from the mapping that holds it
+    for role, ck in gates.checkers(model).items():
+        h = loops.helper_of(model, ck, "POST")
+        if h is not None:
+            run.do(loops.verdict_rule, model, "C08.old-for-error", h[0], h[1], h[2], 1)
     run.do(gates.c01_read_live, model, "C08.read-live", ("SNAP",))
     run.do(capture_helpers, model)
     run.do(define_tables, model)
